@@ -1,7 +1,9 @@
 """C48 — configuration values parse to their documented meaning
 (util/time_format.py parse_duration / parse_date, util/abbreviate.py parse_abbreviated_size / abbreviate_space)."""
 import datetime
+import os
 import re
+import time
 import unicodedata
 
 ID = "C48"
@@ -23,7 +25,8 @@ LEVEL_NOTE = ("Lean kernel + standard axioms; the model is hand-written and tied
               "classes by harness sym_of (Python str.isdecimal/isspace = re's \\d/\\s), validated on all code points in the thorough tier.")
 RULE = ("one case = one call of parse_duration / parse_date / parse_abbreviated_size on a generated string, or one "
         "abbreviate_space→parse_abbreviated_size round trip; distinct = distinct (function, argument); non-trivial = the argument "
-        "contains at least one digit (so the number part of the grammar is entered)")
+        "contains at least one digit (so the number part of the grammar is entered); the date cases are additionally run under "
+        "each process time zone of ZONES (TZ + time.tzset), one case per (date, zone)")
 TRUSTED = ["lean/Tahoe/Config/Parse.lean is a hand transcription of the four functions (regexes as greedy recognisers, justified in its header)",
            "harness/props/c48.py sym_of: the abstraction of a Python character to the model's alphabet",
            "harness/extract_parts/config.py: unit tables and pattern strings recovered from the functions' ASTs"]
@@ -442,11 +445,105 @@ def interesting_code_points():
     return sorted(res)
 
 
+# ------------------------------------------------------------------ process time zones
+# docs/garbage-collection.rst: "midnight UTC at the beginning of the given day" — whatever the node's local zone.
+# None = TZ unset.  Named zones need /usr/share/zoneinfo; the POSIX-style strings work without it.
+ZONES = [None, "UTC", "America/Los_Angeles", "Asia/Kolkata", "Pacific/Kiritimati", "Europe/London", "EST5EDT",
+         "PST8PDT,M3.2.0,M11.1.0", "XYZ-5:30", "ABC+11"]
+
+
+def zone_usable(z):
+    return z is None or not (z[0].isupper() and "/" in z) or os.path.exists(os.path.join("/usr/share/zoneinfo", z))
+
+
+def set_tz(z):
+    if z is None:
+        os.environ.pop("TZ", None)
+    else:
+        os.environ["TZ"] = z
+    time.tzset()
+
+
+def iso_call(s):
+    """iso_utc_time_to_seconds(s + 'T00:00:00') and iso_utc_date of that moment, canonicalised."""
+    from allmydata.util import time_format
+    try:
+        v = time_format.iso_utc_time_to_seconds(s + "T00:00:00")
+        return "ok:%r:%s" % (v, time_format.iso_utc_date(v))
+    except Exception as e:
+        return type(e).__name__
+
+
+def eval_timezones(ctx, cases, zones):
+    """The date cases under several process time zones: parse_date must give the model's (zone-free) answer in every
+    zone; the UTC helpers iso_utc_time_to_seconds / iso_utc_date must not depend on the zone either."""
+    saved = os.environ.get("TZ")
+    lines = [line_of("date", s) for s, _ in cases]
+    uniq = sorted(set(lines))
+    res = ctx.model(uniq)
+    table = dict(zip(uniq, res)) if res is not None else None
+    base, base_iso = None, None
+    try:
+        for z in zones:
+            if not zone_usable(z):
+                ctx.count("tz-skipped:%s" % z)
+                continue
+            set_tz(z)
+            ctx.count("tz:%s" % (z or "unset"), len(cases))
+            outs, isos = [], []
+            for s, doc in cases:
+                out = impl_call("date", s)
+                outs.append(out)
+                isos.append(iso_call(s) if doc is not None else None)
+            if base is None:
+                base, base_iso = outs, isos
+            for k, (s, doc) in enumerate(cases):
+                case = {"fn": "date", "s": s, "tz": z}
+                if doc is not None:
+                    case["documented"] = list(doc)
+                if outs[k] != base[k]:
+                    ctx.violation("parse_date(%r) gives %s with TZ=%s but %s with TZ unset: the cutoff must be midnight UTC in every zone"
+                                  % (s, outs[k], z, base[k]), case, "parse_date-timezone-dependent", outs[k])
+                else:
+                    monitor_parse(ctx, "date", s, outs[k], doc)
+                if isos[k] != base_iso[k]:
+                    ctx.violation("iso_utc_time_to_seconds/iso_utc_date(%r) give %s with TZ=%s but %s with TZ unset"
+                                  % (s + "T00:00:00", isos[k], z, base_iso[k]), dict(case, fn="iso"),
+                                  "iso_utc-timezone-dependent", isos[k])
+                ctx.case(("date", s, z or "unset"))
+            if table is not None:
+                ctx.compare("parse_date under TZ=%s" % (z or "unset"),
+                            [{"fn": "date", "s": s, "tz": z} for s, _ in cases], outs, [table[l] for l in lines])
+    finally:
+        if saved is None:
+            os.environ.pop("TZ", None)
+        else:
+            os.environ["TZ"] = saved
+        time.tzset()
+
+
+def timezone_cases(rng, n):
+    cases = [(s, doc) for fn, s, doc in CORPUS if fn == "date"]
+    # summer and winter days, the 1968-71 British Standard Time years, far past and future
+    for s in ("2009-07-01", "2009-12-31", "1969-06-15", "1970-01-02", "1968-10-27", "1971-10-31", "2038-01-19", "2038-01-20",
+              "1901-12-13", "0001-01-01", "9999-12-31", "2024-03-10", "2024-03-31", "2024-11-03", "1995-01-01"):
+        y, m, d = (int(x) for x in s.split("-"))
+        cases.append((s, ("date-documented", (datetime.date(y, m, d) - datetime.date(1970, 1, 1)).days * 86400)))
+    for _ in range(n):
+        cases.append(gen_documented(rng, "date"))
+    for _ in range(n // 4):
+        cases.append((gen_bad_date(rng), None))
+    return cases
+
+
 def run(ctx):
     if ctx.replay:
         c = ctx.replay["case"]
         if c["fn"] in ("rt", "abbr"):
             eval_roundtrips(ctx, [(bool(c["si"]), int(c["n"]))])
+        elif "tz" in c:
+            doc = c.get("documented")
+            eval_timezones(ctx, [(c["s"], (doc[0], int(doc[1])) if doc else None)], [None, c["tz"]])
         else:
             doc = c.get("documented")
             eval_parse_cases(ctx, [(c["fn"], c["s"], (doc[0], int(doc[1])) if doc else None)], "replayed call")
@@ -482,6 +579,8 @@ def run(ctx):
                 for w in (sc + tail, (sc + tail).lower(), (sc + tail).upper()):
                     grid.append(("size", "37" + ws + w, ("size-documented-space" if ws else "size-documented", doc_size_value(37, sc, binary))))
     eval_parse_cases(ctx, grid, "spelling grid")
+    # 2b. dates under several process time zones (the documented moment is midnight UTC wherever the node runs)
+    eval_timezones(ctx, timezone_cases(rng, ctx.budget(120, 3000)), ZONES)
     # 3. sizes through print-then-parse
     eval_roundtrips(ctx, [(rng.random() < 0.5, gen_size(rng)) for _ in range(ctx.budget(4000, 150000))])
     if ctx.tier == "thorough":
